@@ -35,8 +35,10 @@ def main() -> int:
     ap.add_argument("--checks", default=None)
     ap.add_argument("--jobs", default="8")
     args = ap.parse_args()
-    work = pathlib.Path(args.workdir)
+    work = pathlib.Path(args.workdir).resolve()
     name = work.name
+    if name.startswith(args.prop + "_"):   # already a filed directory (/verif/seeded/<PROP>_<name>)
+        name = name[len(args.prop) + 1:]
     patch = work / "patch.diff"
     wt = tempfile.mkdtemp(prefix="vf_seedchk_", dir="/tmp")
     os.rmdir(wt)
@@ -71,7 +73,8 @@ def main() -> int:
     dest = VERIF / "seeded" / f"{args.prop}_{name}"
     dest.mkdir(parents=True, exist_ok=True)
     for f in ("patch.diff", "demo.py"):
-        shutil.copy(work / f, dest / f)
+        if (work / f).resolve() != (dest / f).resolve():
+            shutil.copy(work / f, dest / f)
     meta = json.loads((work / "meta.json").read_text())
     if (dest / "meta.json").exists():  # keep the history of earlier confirmations
         prev = json.loads((dest / "meta.json").read_text())
